@@ -249,6 +249,30 @@ class Ctx:
         return p.returncode, p.stdout, p.stderr.decode("utf-8", "replace")
 
 
+def anchor_hashes(pid):
+    """sha256 of every source file the property is anchored in (properties.jsonl)."""
+    out = {}
+    for line in open(os.path.join(VERIF, "properties.jsonl")):
+        p = json.loads(line)
+        if p["id"] == pid:
+            for f in p["anchors"]["files"]:
+                try:
+                    out[f] = hashlib.sha256(open(os.path.join(REPO, f), "rb").read()).hexdigest()[:16]
+                except OSError:
+                    out[f] = "MISSING"
+    return out
+
+
+def anchors_changed(pid):
+    """Files whose content differs from corpus/anchors.expected (written by `./check --record-anchors`)."""
+    try:
+        exp = json.load(open(os.path.join(VERIF, "corpus", "anchors.expected")))
+    except (OSError, ValueError):
+        return []
+    cur = anchor_hashes(pid)
+    return sorted(f for f, h in cur.items() if exp.get(pid, {}).get(f) != h)
+
+
 def replay_path(pid, n):
     d = os.path.join(EVID, "replay")
     os.makedirs(d, exist_ok=True)
@@ -370,22 +394,25 @@ def run_property(pid, tier, seed, replay=None):
         print("replay: %s" % ("property fails on this case" if ctx.violations else "case passes"))
         return 1 if ctx.violations else 0
 
+    changed = anchors_changed(pid)
+    gen_tier = tier
+    if changed and tier == "quick":
+        gen_tier = "escalated"   # a modelled source file changed: 6x the quick generator budget
     if hok and driver_ok and spec.get("differential", True):
-        budget = [(seed, tier)]
         cc = corpus_cases(pid)
         if cc:
             differential(ctx, spec, cc, label="corpus")
-        cases = gen_cases(ctx, seed, tier)
+        cases = gen_cases(ctx, seed, gen_tier)
         if cases:
             differential(ctx, spec, cases, label="generated")
         if spec.get("scaled") and not any(b[0] == "harness-scaled-build" for b in broken):
-            cases = gen_cases(ctx, seed, tier, scaled=True, extra=["scaled", str(spec["scaled"])])
+            cases = gen_cases(ctx, seed, gen_tier, scaled=True, extra=["scaled", str(spec["scaled"])])
             if cases:
                 differential(ctx, spec, cases, scaled=True, label="scaled")
         if broken and not ctx.violations:
             # a proof obligation broke: search harder for a concrete failing input (10x budget)
             for k in range(1, 11):
-                cases = gen_cases(ctx, seed + 1000 * k, tier)
+                cases = gen_cases(ctx, seed + 1000 * k, gen_tier if k < 3 else tier)
                 if cases:
                     differential(ctx, spec, cases, label="search-%d" % k)
                 if ctx.violations:
@@ -444,6 +471,8 @@ def run_property(pid, tier, seed, replay=None):
             "traces_validated_against_impl": ctx.traces,
             "known_findings_hit": sorted(ctx.known_hit.keys()),
             "broken_obligations": [b[0] for b in broken],
+            "anchor_files_changed": changed,
+            "generator_budget": gen_tier,
         },
         "assumptions": spec.get("assumptions", []),
         "wall_s": round(wall, 2),
@@ -484,6 +513,12 @@ def main(argv):
         return 2
     if argv[0] == "--setup":
         return setup()
+    if argv[0] == "--record-anchors":
+        ids = [json.loads(l)["id"] for l in open(os.path.join(VERIF, "properties.jsonl"))]
+        with open(os.path.join(VERIF, "corpus", "anchors.expected"), "w") as f:
+            json.dump({pid: anchor_hashes(pid) for pid in ids}, f, indent=1, sort_keys=True)
+        print("recorded anchor hashes of %d properties" % len(ids))
+        return 0
     pid = argv[0]
     tier = os.environ.get("VERIF_TIER", "quick")
     if tier not in ("quick", "thorough"):
